@@ -49,11 +49,14 @@ class ScaleSpec(SeqSpec):
             for n, p in [(6, 2), (50, 3), (300, 4)]:
                 add({"kind": "do-overlap", "n": n, "p": p})
             add({"kind": "do-empty"})
+            add({"kind": "do-nested-last"})
         if "chans-merge" in self.kinds:
             for n in [255, 256, 257, 300] + ([600] if big else []):
                 add({"kind": "chans-merge", "n": n, "per": 2})
             for n in [0, 1, 2, 3, 4, 5, 9]:
                 add({"kind": "chans-merge-iface", "n": n})
+            for n in [4, 7]:
+                add({"kind": "chans-merge-concurrent", "n": n, "rounds": 300 if big else 30})
         if "mapiter" in self.kinds:
             for st in (False, True):
                 add({"kind": "mapiter", "n": 40000, "p": 2, "buf": 4, "delay": [100, 32767, 32768], "stream": st})
@@ -85,12 +88,14 @@ class ScaleSpec(SeqSpec):
                 for p in (1, 3):
                     add({"kind": "mapstream-close-busy", "who": who, "p": p, "hold_ms": hold if p == 3 else 40})
         if "mapstream-ferr-storm" in self.kinds:
+            add({"kind": "mapstream-two-instances"})
             add({"kind": "mapstream-ferr-storm", "trials": 4000 if big else 200, "p": 24})
             add({"kind": "mapstream-ferr-storm", "trials": 4000 if big else 200, "p": 3})
         if "pipe-trysend-storm" in self.kinds:
             for k, cap, f in [(8, 1, 1.0), (6, 2, 1.0), (12, 3, 0.4)]:
                 add({"kind": "pipe-trysend-storm", "rounds": int((3000 if big else 150) * f), "k": k, "cap": cap})
         if "pipe-idle-next" in self.kinds:
+            add({"kind": "pipe-two-instances"})
             add({"kind": "pipe-idle-next", "cap": 0, "hold_ms": hold})
             add({"kind": "pipe-idle-next", "cap": 2, "hold_ms": 40})
         return cases
